@@ -8,6 +8,7 @@ visible just before a chosen `send`, `source_complete` None or an Event set befo
 `send`.  The harness converts seconds to samples with the very expressions of
 pipeline.py 815-817 (same operand order) and hands integers to the model.
 """
+import copy
 import itertools
 from collections import deque
 from threading import Event
@@ -16,7 +17,7 @@ import numpy as np
 
 from .framework import Spec
 
-FS_LIST = [1000.0, 25000.0, 44100.0, 48828.125, 97656.25, 195312.5]
+FS_LIST = [1000.0, 25000.0, 44100.0, 48828.125, 97656.25, 195312.5, 32768.0, 65536.0]   # the last two: exact .5 ties
 
 
 # ---------------------------------------------------------------------------
@@ -29,7 +30,9 @@ def conv(case, req):
     total_epoch_size = size + post + pre
     epoch_samples = round(total_epoch_size * fs)
     t0 = round((req['t0'] - pre) * fs)
-    return t0, epoch_samples
+    # `skip`: the stream is preceded by one chunk of `skip` samples (>= 2^31) that the model does not see;
+    # all positions handed to the model / printed / used by the oracle are relative to its end
+    return t0 - case.get('skip', 0), epoch_samples
 
 
 def buffer_samples(case):
@@ -37,11 +40,55 @@ def buffer_samples(case):
 
 
 def key_ids(case):
-    """(t0, key) -> small integer (index of the first request carrying that pair)."""
+    """(t0, key) -> small integer (index of the first request carrying that pair; removals naming no
+    request get the numbers after the requests)."""
     ids = {}
     for i, r in enumerate(case['reqs']):
         ids.setdefault((r['t0'], r.get('key')), i)
+    for i, g in enumerate(case.get('ghosts') or []):
+        ids.setdefault((g['t0'], g.get('key')), len(case['reqs']) + i)
     return ids
+
+
+def bounds_of(parts):
+    out, t = [0], 0
+    for p in parts:
+        t += p
+        out.append(t)
+    return out
+
+
+def oldest_all(parts, B):
+    """oldest_start(parts, B, j) for every j, in one pass (the prune pointer only moves forward)."""
+    b = bounds_of(parts)
+    out, i = [0], 0
+    for j in range(1, len(parts)):
+        # state after call j-1: tlb = b[j]; chunks i.. are kept while not (end < tlb - B)
+        while i < j - 1 and b[i + 1] < b[j] - B:
+            i += 1
+        # the prune loop never removes the chunk just appended unless B < 0
+        out.append(b[i] if not (b[i + 1] < b[j] - B) else b[j])
+    return out
+
+
+def last_admissible_fast(oldest, s):
+    j = 0
+    while j + 1 < len(oldest) and oldest[j + 1] <= s:
+        j += 1
+    return j
+
+
+def as_repr(x, how):
+    """The same number in another representation."""
+    if x is None or how in (None, 'float'):
+        return x
+    if how == 'np64':
+        return np.float64(x)
+    if how == 'int':
+        return int(x) if float(x).is_integer() else x
+    if how == 'npint':
+        return np.int64(x) if float(x).is_integer() else x
+    raise ValueError(how)
 
 
 def oldest_start(parts, B, j):
@@ -107,7 +154,9 @@ class C05(Spec):
     ASSUMPTIONS = [
         'request keys (t0, key) are pairwise distinct; one epoch length per extractor; epoch length >= 0',
         'a removal notification is never made visible in an earlier call than the request it removes',
-        'empty_queue_cb is given; buffer_size >= 0',
+        'buffer_size >= 0; without empty_queue_cb nothing is demanded about the all-done notification',
+        'the caller does not overwrite a chunk after sending it, nor the nested metadata dict of a request still pending '
+        '(the extractor keeps references to both; see notes/C05.md, hardening)',
     ]
     RULE = ('random: stream of 30-3000 samples, random partition (parts 0..N), 0-10 requests each made visible at a '
             'chunk index drawn among all admissible ones (bias to the last admissible), overlapping / back-to-back / '
@@ -115,7 +164,17 @@ class C05(Spec):
             'source_complete None / Event set before a random call, 1-D / 2-D / annotated input. boundary: one or two '
             'requests with chunk edges at every offset -2..+2 around epoch start and end, every admissible arrival call '
             'and every removal call. malformed: late (missed) requests, duplicate keys, removal before its request, mixed '
-            'epoch lengths. A case is non-trivial when at least one epoch is delivered or removed; distinct = distinct case dict.')
+            'epoch lengths. variant: a random history told differently - fs / times / sizes as int, NumPy scalars; stream dtype '
+            'float32/int16/int32/int64/uint16, strided or Fortran-ordered memory, 1-4 channels; arguments positional / only the '
+            'non-default ones; no callback, no removed_queue; extra info entries, no metadata entry, per-request metadata keys '
+            '(must not show up on another request\'s epoch); the consumer overwrites every delivered batch, the caller clears '
+            'every info dict after the call that consumed it; removals naming no request (same t0 other key, same key one sample '
+            'later); a second extractor with other buffer/prestim/poststim/size on the very same info dicts and chunk objects; '
+            'the chunks (data, metadata, channel labels) must come back unmodified. beyond-2^31: the same after one leading chunk '
+            'of 2^31..2^40 samples (no memory behind it; the model sees positions relative to its end). scale: 2^16..2^20 samples '
+            'in chunks mixing 1 sample and 2^15..2^18, about 1000 requests or epochs of 2^15..2^16 samples. capture: capture_epoch '
+            'used on its own, first sample as int/float/NumPy scalar. '
+            'A case is non-trivial when at least one epoch is delivered or removed; distinct = distinct case dict.')
     exhaustive_note = {
         'quick': '',
         'thorough': 'every composition of a 6-sample stream x every request (s, len) inside it x every admissible arrival '
@@ -147,16 +206,20 @@ class C05(Spec):
                 parts.insert(rng.randint(0, len(parts)), 0)
         return parts
 
-    def _random_case(self, rng, big):
+    def _random_case(self, rng, big, skip=0):
         fs = rng.choice(FS_LIST) if rng.random() < 0.8 else rng.uniform(8000, 400000)
         N = rng.randint(30, 3000 if big else 400)
         nd = rng.choice(['1d', '2d', 'pd1', 'pd2'])
         parts = self._partition(rng, N)
         L = rng.choice([0, 1, 2, 5, 10, 40, 100]) if rng.random() < 0.8 else rng.randint(1, max(1, N // 3))
-        size_off = rng.choice([0, 0, 0.25, -0.25, 0.49])
+        size_off = rng.choice([0, 0, 0.25, -0.25, 0.49, 0.5])
         epoch_size = (L + size_off) / fs if L > 0 else 0.2 / fs
-        pre = rng.choice([0, 0, 3 / fs, 1.5 / fs, 2.25 / fs, 7.3 / fs])
-        post = rng.choice([0, 0, 2 / fs, 0.4 / fs])
+        pre_s = rng.choice([0, 0, 3, 1.5, 2.25, 7.3, 2.5, 2, -2, -1.5])
+        post_s = rng.choice([0, 0, 2, 0.4, 2, 3, -1, 0.5])
+        if L + pre_s + post_s < 1:                 # negative prestim / poststim only while the epoch keeps a length >= 0
+            pre_s = post_s = 0
+        pre = pre_s / fs if pre_s else 0
+        post = post_s / fs if post_s else 0
         use_dur = rng.random() < 0.15
         bmode = rng.random()
         if bmode < 0.35:
@@ -165,7 +228,11 @@ class C05(Spec):
             buffer = rng.choice([1, 2, 5, 20, 50.5, 100]) / fs
         else:
             buffer = (N + 10) / fs
-        case = self._mk('random', fs, N, nd, parts, None if use_dur else epoch_size, pre, post, buffer, [], [], None)
+        # `epoch_size if epoch_size else info['duration']`: None, 0 and 0.0 all mean "per-request duration"
+        case = self._mk('random', fs, N, nd, parts, rng.choice([None, None, 0, 0.0]) if use_dur else epoch_size,
+                        pre, post, buffer, [], [], None)
+        if skip:
+            case['skip'] = skip
         B = buffer_samples(case)
         nreq = rng.choice([0, 1, 1, 2, 3, 4, 6, 10])
         reqs, rems = [], []
@@ -186,7 +253,7 @@ class C05(Spec):
                 target = rng.choice(np.cumsum([0] + parts).tolist())
             else:
                 target = rng.randint(0, N)
-            req['t0'] = (target + frac) / fs + pre
+            req['t0'] = (skip + target + frac) / fs + pre
             s, n = conv(case, req)
             if s < 0:
                 continue
@@ -216,8 +283,168 @@ class C05(Spec):
                 if rng.random() < 0.15:
                     rems.append({'r': ri, 'j': rng.randint(j, hi)})
         case['reqs'], case['rems'] = reqs, rems
-        if rng.random() < 0.5:
+        if rng.random() < 0.5 or skip:
             case['sc'] = rng.randint(0, len(parts))
+        return case
+
+    # -- hardening: other spellings of the same history, caller-side aliasing, several consumers ------------------
+    def _decorate(self, rng, case):
+        """Same history, told differently: other representations of the same numbers and arrays, other argument
+        spellings, options at non-default values, a caller that overwrites what it got and what it had passed,
+        removals naming nothing, a second extractor on the same dict and chunk objects."""
+        fs, N = case['fs'], case['N']
+        rep = {}
+        if rng.random() < 0.4:
+            rep['fs_as'] = rng.choice(['np64', 'int', 'npint'])
+        if rng.random() < 0.3:
+            rep['num_as'] = 'np64'
+        if rng.random() < 0.3:
+            rep['t0_req_as'] = 'np64'
+        if rng.random() < 0.3:
+            rep['t0_rem_as'] = 'np64'
+        if rng.random() < 0.4:
+            rep['args'] = rng.choice(['pos', 'min'])
+        if rng.random() < 0.5:
+            rep['dtype'] = rng.choice(['f4', 'i2', 'i4', 'i8', 'u2'])
+            if rep['dtype'] == 'u2' and case['nd'] in ('2d', 'pd2'):
+                rep['nch'] = 1                       # no negated second row in an unsigned type
+        if rng.random() < 0.3:
+            rep['layout'] = rng.choice(['strided', 'fortran'])
+        if case['nd'] in ('2d', 'pd2') and 'nch' not in rep and rng.random() < 0.4:
+            rep['nch'] = rng.choice([1, 3, 4])
+        if rng.random() < 0.15:
+            rep['no_cb'] = True
+        if rng.random() < 0.3:
+            rep['no_rq'] = True                      # only takes effect when nothing is ever removed
+        if rng.random() < 0.3:
+            rep['extra_info'] = True
+        if rng.random() < 0.5:
+            rep['md_extra'] = True
+        for r in case['reqs']:
+            if rng.random() < 0.1:
+                r['nomd'] = True
+        case['rep'] = rep
+        case['kind'] = 'variant'
+        if rng.random() < 0.35:
+            case['clobber'] = True
+        if rng.random() < 0.35:
+            case['mut_info'] = True
+        # removals naming no request: same t0 with another key, same key one sample later, nothing at all
+        if rng.random() < 0.3:
+            ghosts = []
+            taken = {(r['t0'], r.get('key')) for r in case['reqs']}
+            for g in range(rng.randint(1, 3)):
+                if case['reqs'] and rng.random() < 0.8:
+                    r = rng.choice(case['reqs'])
+                    if rng.random() < 0.5:
+                        cand = {'t0': r['t0'], 'key': f'other{g}'}
+                    else:
+                        cand = {'t0': r['t0'] + 1 / fs}
+                        if 'key' in r:
+                            cand['key'] = r['key']
+                else:
+                    cand = {'t0': rng.randint(0, N) / fs, 'key': f'nobody{g}'}
+                if (cand['t0'], cand.get('key')) in taken:
+                    continue
+                taken.add((cand['t0'], cand.get('key')))
+                cand['j'] = rng.randint(0, len(case['parts']) - 1)
+                ghosts.append(cand)
+            case['ghosts'] = ghosts
+        # a second extractor differing in one or more parameters; every request stays inside its look-back window when
+        # its buffer is not smaller and its prestim not larger (its epochs start no earlier)
+        if rng.random() < 0.35:
+            tw = {}
+            what = rng.choice(['buffer', 'post', 'pre', 'size', 'all'])
+            if what in ('buffer', 'all'):
+                tw['buffer'] = case['buffer'] + rng.choice([1, 7, 50]) / fs
+            if what in ('post', 'all'):
+                tw['post'] = case['post'] + rng.choice([1, 2, 5]) / fs
+            if what in ('pre', 'all') and case['pre'] > 0:
+                tw['pre'] = rng.choice([0, case['pre'] / 2])
+            if what in ('size', 'all') and case['epoch_size']:
+                tw['epoch_size'] = case['epoch_size'] + rng.choice([1, 3, 10]) / fs
+            if tw and all(conv(dict(case, **tw), r)[0] >= conv(case, r)[0] and conv(dict(case, **tw), r)[1] >= 0
+                          for r in case['reqs']):
+                case['twin'] = tw
+        return case
+
+    def _decorate_light(self, rng, case):
+        kind = case['kind']
+        if rng.random() < 0.5:
+            self._decorate(rng, case)
+            if case['rep'].get('dtype') != 'i8':
+                case['rep'].pop('dtype', None)       # 2^31 and beyond needs float64 / int64 values
+            case['kind'] = kind
+        return case
+
+    def _scale_case(self, rng, variant, quick):
+        """Far beyond the usual sizes: 2^16..2^20 samples in chunks mixing one sample and 2^15+, about a thousand
+        requests (variant 'many') or a few epochs of 2^15..2^16 samples (variant 'long')."""
+        fs = rng.choice(FS_LIST)
+        if variant == 'many':
+            N = rng.randint(2 ** 16, 2 ** 17 if quick else 2 ** 19)
+            sizes = [1, 1, 2, 7, 100, 5000, 2 ** 15, 2 ** 16]
+            L = rng.choice([1, 5, 16])
+            nreq = rng.randint(800, 1200)
+        else:
+            N = rng.randint(2 ** 18, 2 ** 20)
+            sizes = [1, 3, 1000, 2 ** 16, 2 ** 18]
+            L = rng.randint(2 ** 15, 2 ** 16)
+            nreq = rng.randint(2, 6)
+        parts, left = [], N
+        while left > 0:
+            n = min(left, rng.choice(sizes) if len(parts) < 300 else 2 ** 16)
+            parts.append(n)
+            left -= n
+        rng.shuffle(parts)
+        nd = rng.choice(['1d', '2d', 'pd1', 'pd2'])
+        buffer = rng.choice([0, 100 / fs, (L + 10) / fs])
+        case = self._mk('scale', fs, N, nd, parts, L / fs, 0, 0, buffer, [], [], rng.choice([None, len(parts) - 1]))
+        oldest = oldest_all(parts, buffer_samples(case))
+        reqs, rems, seen = [], [], set()
+        prev = None
+        for r in range(nreq):
+            if prev is not None and rng.random() < 0.3:
+                target = prev + rng.choice([L, L // 2, 1])          # back-to-back / overlapping
+            else:
+                target = rng.randint(0, N - L)
+            req = {'mid': 100 + r, 'key': r % 7, 't0': target / fs}
+            s, n = conv(case, req)
+            if s < 0 or s + n > N or (req['t0'], req['key']) in seen:
+                continue
+            seen.add((req['t0'], req['key']))
+            jmax = last_admissible_fast(oldest, s)
+            req['j'] = jmax if rng.random() < 0.5 else rng.randint(0, jmax)
+            prev = s
+            reqs.append(req)
+            if rng.random() < 0.1:
+                rems.append({'r': len(reqs) - 1, 'j': rng.randint(req['j'], len(parts) - 1)})
+        case['reqs'], case['rems'] = reqs, rems
+        return case
+
+    def _capture_case(self, rng):
+        """capture_epoch on its own (the public single-epoch form): first sample given as int / float / NumPy scalar."""
+        fs = 1000.0
+        N = rng.randint(10, 200)
+        parts = [p for p in self._partition(rng, N)]
+        L = rng.choice([0, 1, 2, 5, 17, 40])
+        s = rng.choice([0, rng.randint(0, N), rng.choice(bounds_of(parts)), max(0, rng.choice(bounds_of(parts)) - 1)])
+        nd = rng.choice(['1d', '2d', 'pd1', 'pd2'])
+        req = {'t0': s / fs, 'key': 0, 'mid': 100, 'j': 0}
+        if L == 0:
+            esz, req['dur'] = None, 0.0
+        else:
+            esz = L / fs
+        if rng.random() < 0.2:
+            req['nomd'] = True
+        # the coroutine ends with the epoch: the history stops at the call that completes it
+        c = completion_call(parts, 0, s, L)
+        if c is not None:
+            parts = parts[:c + 1]
+        case = self._mk('capture', fs, sum(parts), nd, parts, esz, 0, 0, 0, [req], [], len(parts))
+        case['rep'] = {'s_as': rng.choice(['int', 'float', 'np', 'npf']), 'args': rng.choice(['kw', 'pos']),
+                       'fs_as': rng.choice(['float', 'int', 'np64']), 'md_extra': rng.random() < 0.5,
+                       'dtype': rng.choice(['f8', 'f8', 'f4', 'i2'])}
         return case
 
     def _boundary_cases(self, rng, tier):
@@ -343,6 +570,18 @@ class C05(Spec):
         yield from self._boundary_cases(rng, tier)
         for i in range(5000 if quick else 40000):
             yield self._random_case(rng, big=(i % 4 == 0))
+        for i in range(2500 if quick else 20000):
+            yield self._decorate(rng, self._random_case(rng, big=(i % 4 == 0)))
+        # sample indices beyond 2^31: the stream is preceded by one leading chunk of `skip` samples
+        for i in range(40 if quick else 400):
+            skip = 2 ** rng.choice([31, 31, 32, 33, 40]) + rng.randint(-3, 10 ** 6)
+            c = self._random_case(rng, big=False, skip=skip)
+            c['kind'] = 'beyond-2^31'
+            yield self._decorate_light(rng, c)
+        for i in range(2 if quick else 12):
+            yield self._scale_case(rng, 'many' if i % 2 == 0 else 'long', quick)
+        for i in range(300 if quick else 3000):
+            yield self._capture_case(rng)
         yield from self._malformed_cases(rng, 400 if quick else 3000)
         if not quick:
             yield from self._exhaustive_cases()
@@ -361,11 +600,36 @@ class C05(Spec):
         complete = [(sc is None) or (j >= sc) for j in range(n)]
         return reqs, rems, complete
 
+    @staticmethod
+    def _ghost_schedule(case):
+        """Per call: removals that name no request ever made."""
+        ghosts = [[] for _ in case['parts']]
+        for gi, g in enumerate(case.get('ghosts') or []):
+            ghosts[g['j']].append(gi)
+        return ghosts
+
+    @staticmethod
+    def configs(case):
+        """The extractor(s) of a case: the main one and, with `twin`, a second one with other parameters that is
+        handed the very same info dicts and chunk objects."""
+        out = [case]
+        if case.get('twin'):
+            out.append(dict(case, **case['twin']))
+        return out
+
     def model_lines(self, case):
+        lines = []
+        for cfg in self.configs(case):
+            lines.extend(self._model_lines_one(cfg))
+        return lines
+
+    def _model_lines_one(self, case):
         ids = key_ids(case)
         keys = 1 if case['nd'].startswith('pd') else 0
         lines = [f'new {buffer_samples(case)} {keys}']
         reqs, rems, complete = self._schedule(case)
+        ghosts = self._ghost_schedule(case)
+        observable = not (case.get('rep') or {}).get('no_cb')       # without a callback nothing can be seen firing
         tlb = 0
         for j, n in enumerate(case['parts']):
             rq = []
@@ -377,99 +641,291 @@ class C05(Spec):
             for i in rems[j]:
                 r = case['reqs'][i]
                 rm.append(str(ids[(r['t0'], r.get('key'))]))
-            lines.append(f"data {tlb}:{n} {','.join(rq) or '-'} {','.join(rm) or '-'} {1 if complete[j] else 0}")
+            for gi in ghosts[j]:
+                g = case['ghosts'][gi]
+                rm.append(str(ids[(g['t0'], g.get('key'))]))
+            lines.append(f"data {tlb}:{n} {','.join(rq) or '-'} {','.join(rm) or '-'} {1 if (complete[j] and observable) else 0}")
             tlb += n
         return lines
 
+    # -- the input stream ----------------------------------------------------
+    @staticmethod
+    def _stream(case):
+        """Value = absolute sample index (channel i: negated when i is odd), in the dtype / memory layout of the case."""
+        rep = case.get('rep') or {}
+        N, nd, H = case['N'], case['nd'], case.get('skip', 0)
+        dtype = {'f8': np.float64, 'f4': np.float32, 'i2': np.int16, 'i4': np.int32, 'i8': np.int64,
+                 'u2': np.uint16}[rep.get('dtype', 'f8')]
+        base = np.arange(H, H + N).astype(dtype)
+        if nd in ('1d', 'pd1'):
+            stream = base
+        else:
+            nch = rep.get('nch', 2)
+            stream = np.vstack([base if c % 2 == 0 else -base for c in range(nch)])
+        layout = rep.get('layout', 'c')
+        if layout == 'strided':
+            wide = np.zeros(stream.shape[:-1] + (2 * N + 1,), dtype=dtype)
+            wide[..., 1::2][..., :N] = stream
+            stream = wide[..., 1::2][..., :N]
+        elif layout == 'fortran' and stream.ndim == 2:
+            stream = np.asfortranarray(stream)
+        return stream
+
+    def _channels(self, case):
+        if case['nd'] != 'pd2':
+            return None
+        nch = (case.get('rep') or {}).get('nch', 2)
+        return ['a', 'b', 'c', 'd'][:nch]
+
+    def _chunk(self, P, case, stream, lo, n):
+        chunk = stream[..., lo:lo + n]
+        if case['nd'].startswith('pd'):
+            H = case.get('skip', 0)
+            chunk = P.PipelineData(chunk, as_repr(case['fs'], (case.get('rep') or {}).get('fs_as')), s0=H + lo,
+                                   metadata={'src': 1}, channel=self._channels(case))
+        return chunk
+
+    def _make_info(self, case, r, removal=False):
+        rep = case.get('rep') or {}
+        info = {'t0': as_repr(r['t0'], rep.get('t0_rem_as' if removal else 't0_req_as'))}
+        if 'key' in r:
+            info['key'] = r['key']
+        if removal:
+            return info
+        if not r.get('nomd'):
+            md = {'id': r['mid']}
+            if rep.get('md_extra'):
+                md[f"u{r['mid']}"] = r['mid']
+                md['label'] = f"r{r['mid']}"
+            info['metadata'] = md
+        if 'dur' in r:
+            info['duration'] = r['dur']
+        if rep.get('extra_info'):
+            info.setdefault('duration', 0.0123)        # ignored when epoch_size is given
+            info['decrement'] = True
+            info['note'] = 'x'
+        return info
+
+    def _make_extractor(self, P, case, q, rq, target, cb, sc):
+        rep = case.get('rep') or {}
+        fs = as_repr(case['fs'], rep.get('fs_as'))
+        num = rep.get('num_as')
+        esz, buf = as_repr(case['epoch_size'], num), as_repr(case['buffer'], num)
+        pre, post = as_repr(case['pre'], num), as_repr(case['post'], num)
+        if rep.get('no_cb'):
+            cb = None
+        if rep.get('no_rq') and not case['rems'] and not case.get('ghosts'):
+            rq = None
+        if rep.get('args') == 'pos':
+            return P.extract_epochs(fs, q, esz, target, buf, cb, rq, pre, post, sc)
+        if rep.get('args') == 'min':
+            # only what differs from the defaults is passed
+            kw = {}
+            if case['buffer'] != 0:
+                kw['buffer_size'] = buf
+            if case['pre'] != 0:
+                kw['prestim_time'] = pre
+            if case['post'] != 0:
+                kw['poststim_time'] = post
+            if sc is not None:
+                kw['source_complete'] = sc
+            if rq is not None:
+                kw['removed_queue'] = rq
+            return P.extract_epochs(fs, q, esz, target, empty_queue_cb=cb, **kw)
+        return P.extract_epochs(fs, q, esz, target, buffer_size=buf, empty_queue_cb=cb, removed_queue=rq,
+                                prestim_time=pre, poststim_time=post, source_complete=sc)
+
     def impl_lines(self, case):
         from psiaudio import pipeline as P
-        ids = key_ids(case)
-        fs, N, nd = case['fs'], case['N'], case['nd']
-        base = np.arange(N, dtype=float)
-        stream = base if nd in ('1d', 'pd1') else np.vstack([base, -base])
+        if case['kind'] == 'capture':
+            return self._impl_capture(P, case)
+        cfgs = self.configs(case)
+        nd = case['nd']
         annotated = nd.startswith('pd')
-        q, rq, got, done = deque(), deque(), [], []
-        sc = None if case['sc'] is None else Event()
-        ex = P.extract_epochs(fs, q, case['epoch_size'], got.append, buffer_size=case['buffer'],
-                              empty_queue_cb=lambda: done.append(1), removed_queue=rq,
-                              prestim_time=case['pre'], poststim_time=case['post'], source_complete=sc)
-        out = ['ok']
+        H = case.get('skip', 0)
+        stream = self._stream(case)
+        pristine = stream.copy()
+        clobber = bool(case.get('clobber'))
+
+        class Ex:
+            pass
+        exs = []
+        for cfg in cfgs:
+            e = Ex()
+            e.cfg, e.q, e.rq, e.got, e.done = cfg, deque(), deque(), [], []
+            e.sc = None if case['sc'] is None else Event()
+
+            def target(x, e=e):
+                is_pd = isinstance(x, P.PipelineData)
+                e.got.append((np.array(np.asarray(x)), is_pd, copy.deepcopy(x.metadata) if is_pd else None))
+                if clobber:
+                    # the consumer owns what it was handed: overwrite it in place
+                    if np.asarray(x).flags.writeable:
+                        np.asarray(x)[...] = 99
+                    if is_pd:
+                        for md in (x.metadata if isinstance(x.metadata, list) else [x.metadata]):
+                            md.clear()
+            e.ex = self._make_extractor(P, cfg, e.q, e.rq, target, lambda e=e: e.done.append(1), e.sc)
+            e.out = ['ok']
+            e.dead = False
+            exs.append(e)
+
+        flags = set()
+        if H:
+            shape = stream.shape[:-1] + (H,)
+            z = np.broadcast_to(np.zeros((), dtype=stream.dtype), shape)     # no memory behind it
+            for e in exs:
+                zc = z
+                if annotated:
+                    zc = P.PipelineData(z, case['fs'], s0=0, metadata={'src': 1}, channel=self._channels(case))
+                n_got, n_done = len(e.got), len(e.done)
+                e.ex.send(zc)
+                if len(e.got) != n_got or len(e.done) != n_done:
+                    flags.add('ACTIVITY-IN-LEADING-CHUNK')
+
         reqs, rems, complete = self._schedule(case)
+        ghosts = self._ghost_schedule(case)
+        ids = key_ids(case)
         tlb = 0
         for j, n in enumerate(case['parts']):
-            for i in reqs[j]:
-                r = case['reqs'][i]
-                info = {'t0': r['t0'], 'metadata': {'id': r['mid']}}
-                if 'key' in r:
-                    info['key'] = r['key']
-                if 'dur' in r:
-                    info['duration'] = r['dur']
-                q.append(info)
-            for i in rems[j]:
-                r = case['reqs'][i]
-                info = {'t0': r['t0']}
-                if 'key' in r:
-                    info['key'] = r['key']
-                rq.append(info)
-            if sc is not None and complete[j]:
-                sc.set()
-            chunk = stream[..., tlb:tlb + n]
-            if annotated:
-                chunk = P.PipelineData(chunk, fs, s0=tlb, metadata={'src': 1},
-                                       channel=None if nd == 'pd1' else ['a', 'b'])
-            n_got, n_done = len(got), len(done)
-            try:
-                ex.send(chunk)
-            except StopIteration:
-                out.append('dead')
-                tlb += n
-                continue
-            except Exception as e:
-                out.append(f'err {type(e).__name__}')
-                tlb += n
-                continue
+            infos = [self._make_info(case, case['reqs'][i]) for i in reqs[j]]
+            rinfos = [self._make_info(case, case['reqs'][i], removal=True) for i in rems[j]]
+            rinfos += [self._make_info(case, case['ghosts'][gi], removal=True) for gi in ghosts[j]]
+            chunk = self._chunk(P, case, stream, tlb, n)
+            for e in exs:
+                e.q.extend(infos)                    # the same dict objects for every consumer
+                e.rq.extend(rinfos)
+                if e.sc is not None and complete[j]:
+                    e.sc.set()
+                n_got, n_done = len(e.got), len(e.done)
+                try:
+                    e.ex.send(chunk)
+                except StopIteration:
+                    e.out.append('dead')
+                    continue
+                except Exception as ex_:
+                    e.out.append(f'err {type(ex_).__name__}')
+                    continue
+                items = []
+                for snap in e.got[n_got:]:
+                    items.extend(self._canon(snap, annotated, nd, ids, case))
+                items.sort()
+                e.out.append(f"ok {';'.join(items) or '-'} done={len(e.done) - n_done}")
+            if annotated and (chunk.metadata != {'src': 1} or chunk.channel != self._channels(case)):
+                flags.add('CHUNK-ANNOTATION-MODIFIED')
+            if case.get('mut_info'):
+                # the caller re-uses / clears the dicts it had put into the queue
+                for info in infos:
+                    info.clear()
+                    info['t0'] = -1.0
+                    info['key'] = 'gone'
+                for info in rinfos:
+                    info.clear()
             tlb += n
-            new = got[n_got:]
+        if not np.array_equal(stream, pristine):
+            flags.add('INPUT-MODIFIED')
+        out = []
+        for e in exs:
+            out.extend(e.out)
+        if flags:
+            out[0] = ','.join(sorted(flags))
+        return out
+
+    def _impl_capture(self, P, case):
+        """capture_epoch used on its own: one epoch, chunks sent as (first sample, data)."""
+        rep = case.get('rep') or {}
+        nd = case['nd']
+        annotated = nd.startswith('pd')
+        stream = self._stream(case)
+        ids = key_ids(case)
+        r = case['reqs'][0]
+        s, n = conv(case, r)
+        got = []
+
+        def target(x):
+            is_pd = isinstance(x, P.PipelineData)
+            a = np.array(np.asarray(x))[np.newaxis]
+            if a.ndim == 2 and nd != '1d':
+                a = a[:, np.newaxis, :]              # a single annotated 1-D epoch has no channel axis
+            got.append((a, is_pd, [copy.deepcopy(x.metadata)] if is_pd else None))
+        info = self._make_info(case, r)
+        info_before = copy.deepcopy(info)
+        s0 = {'int': s, 'float': float(s), 'np': np.int64(s), 'npf': np.float64(s)}[rep.get('s_as', 'int')]
+        fs = as_repr(case['fs'], rep.get('fs_as'))
+        if rep.get('args') == 'pos':
+            co = P.capture_epoch(s0, n, info, target, fs, False)
+        else:
+            co = P.capture_epoch(s0, n, info, target, fs=fs)
+        out = ['ok']
+        tlb = 0
+        for j, m in enumerate(case['parts']):
+            chunk = self._chunk(P, case, stream, tlb, m)
+            n_got = len(got)
+            try:
+                co.send((tlb, chunk))
+            except StopIteration:
+                pass
+            except Exception as ex_:
+                out.append(f'err {type(ex_).__name__}')
+                tlb += m
+                continue
+            tlb += m
             items = []
-            if len(new) > 1:
-                items.append('MULTIPLE-TARGET-CALLS')
-            for merged in new:
-                items.extend(self._canon(P, merged, annotated, nd, ids))
+            for snap in got[n_got:]:
+                items.extend(self._canon(snap, annotated, nd, ids, case))
             items.sort()
-            out.append(f"ok {';'.join(items) or '-'} done={len(done) - n_done}")
+            out.append(f"ok {';'.join(items) or '-'} done=0")
+        if info != info_before:
+            out[0] = 'INFO-MODIFIED'
         return out
 
     @staticmethod
-    def _canon(P, merged, annotated, nd, ids):
+    def _canon(snap, annotated, nd, ids, case):
+        arr, is_pd, metadata = snap
+        H = case.get('skip', 0)
         items = []
-        is_pd = isinstance(merged, P.PipelineData)
-        arr = np.asarray(merged)
         want_ndim = 2 if (nd == '1d') else 3
         if arr.ndim != want_ndim and arr.shape[-1] != 0:
             return [f'BAD-SHAPE{arr.shape}']
+        nomd = {r['mid'] for r in case['reqs'] if r.get('nomd')}
+        by_key = {}
+        for r in case['reqs']:
+            by_key.setdefault((r['t0'], r.get('key')), r)
+        md_extra = (case.get('rep') or {}).get('md_extra')
         for e in range(arr.shape[0]):
             ep = arr[e]
-            md = merged.metadata[e] if is_pd else None
+            md = metadata[e] if is_pd else None
             if ep.shape[-1] == 0:
                 missed = is_pd and (not annotated or 't0' not in md)
                 cells = 'M' if missed else 'E'
             else:
                 rows = ep.reshape(-1, ep.shape[-1])
-                r0 = rows[0]
+                r0 = rows[0].astype(np.float64)
                 ok = np.all(r0 == np.round(r0))
-                if rows.shape[0] == 2:
-                    ok = ok and np.array_equal(rows[1], -r0)
-                elif rows.shape[0] != 1:
+                for c in range(1, rows.shape[0]):
+                    ok = ok and np.array_equal(rows[c].astype(np.float64), r0 if c % 2 == 0 else -r0)
+                want_rows = 1 if nd in ('1d', 'pd1') else (case.get('rep') or {}).get('nch', 2)
+                if rows.shape[0] != want_rows:
                     ok = False
-                cells = rle([int(v) for v in r0]) if ok else 'X'
+                cells = rle([int(v) - H for v in r0]) if ok else 'X'
             if annotated:
                 if md is None:
                     items.append(f'NO-METADATA={cells}')
                 elif cells == 'M':
                     items.append(f"t{md.get('id')}={cells}")
                 else:
-                    k = ids.get((md.get('t0'), md.get('key')))
-                    items.append(f"k{k}t{md.get('id')}={cells}")
+                    pair = (md.get('t0'), md.get('key'))
+                    k = ids.get(pair)
+                    mid = md.get('id')
+                    req = by_key.get(pair)
+                    if mid is None and req is not None and req.get('nomd'):
+                        mid = req['mid']             # the request carried no metadata entry
+                    item = f"k{k}t{mid}={cells}"
+                    if md_extra and req is not None and not req.get('nomd'):
+                        ukeys = sorted(x for x in md if isinstance(x, str) and x[:1] == 'u' and x[1:].isdigit())
+                        if ukeys != [f"u{req['mid']}"] or md.get('label') != f"r{req['mid']}":
+                            item += f'!METADATA-OF-OTHER-REQUEST{ukeys}'
+                    items.append(item)
             else:
                 items.append(cells)
         return items
@@ -501,11 +957,21 @@ class C05(Spec):
         return True
 
     def oracle(self, case, out):
-        """The property, on the real code's outputs (valid histories only)."""
+        """The property, on the real code's outputs (valid histories only), for every extractor of the case."""
+        if out and out[0].startswith('HARNESS-EXC'):
+            return f'extractor raised: {out[0]}' if self.in_domain(case) else None
+        n = 1 + len(case['parts'])
+        for k, cfg in enumerate(self.configs(case)):
+            f = self._oracle_one(cfg, out[k * n:(k + 1) * n], out[0])
+            if f is not None:
+                return f if k == 0 else f'second extractor on the same requests and chunks ({case["twin"]}): {f}'
+        return None
+
+    def _oracle_one(self, case, out, head):
         if not self.in_domain(case):
             return None
-        if out and out[0].startswith('HARNESS-EXC'):
-            return f'extractor raised: {out[0]}'
+        if head != 'ok':
+            return f'the caller\'s data did not come back unmodified: {head}'
         calls = out[1:]
         parts = case['parts']
         annotated = case['nd'].startswith('pd')
@@ -585,6 +1051,8 @@ class C05(Spec):
                 if it not in tolerated:
                     return f'delivered epoch {it} matches no request (content / metadata pairing)'
         # done callback
+        if (case.get('rep') or {}).get('no_cb'):
+            return None
         if sum(fired) > 1 or any(f > 1 for f in fired):
             return f'empty_queue_cb fired {sum(fired)} times'
         # pending after call j: requests visible by j, with samples in the stream or not, not yet delivered, not removed
@@ -629,6 +1097,10 @@ class C05(Spec):
                 reqs.append(r)
             c['reqs'] = reqs
             c['rems'] = [{'r': rm['r'], 'j': rng.randint(reqs[rm['r']]['j'], len(c['parts']) - 1)} for rm in case['rems']]
+            if case.get('ghosts'):
+                c['ghosts'] = [dict(g, j=rng.randint(0, len(c['parts']) - 1)) for g in case['ghosts']]
+            if case['kind'] == 'capture':
+                continue
             if c['sc'] is not None:
                 c['sc'] = min(c['sc'], len(c['parts']))
             yield c
@@ -646,7 +1118,7 @@ class C05(Spec):
             yield c
         # merge two adjacent chunks when nothing is scheduled on the second
         parts = case['parts']
-        used = {r['j'] for r in case['reqs']} | {rm['j'] for rm in case['rems']}
+        used = {r['j'] for r in case['reqs']} | {rm['j'] for rm in case['rems']} | {g['j'] for g in case.get('ghosts') or []}
         for j in range(1, len(parts)):
             if j in used or (case['sc'] is not None and case['sc'] == j):
                 continue
@@ -654,13 +1126,23 @@ class C05(Spec):
             c['parts'] = parts[:j - 1] + [parts[j - 1] + parts[j]] + parts[j + 1:]
             c['reqs'] = [dict(r, j=r['j'] - (r['j'] > j)) for r in case['reqs']]
             c['rems'] = [dict(rm, j=rm['j'] - (rm['j'] > j)) for rm in case['rems']]
+            if case.get('ghosts'):
+                c['ghosts'] = [dict(g, j=g['j'] - (g['j'] > j)) for g in case['ghosts']]
             if c['sc'] is not None and c['sc'] > j:
                 c['sc'] -= 1
             yield c
         if case['nd'] != '1d':
             yield dict(case, nd='1d')
-        if case['sc'] is not None:
+        if case['sc'] is not None and not case.get('skip') and case['kind'] != 'capture':
             yield dict(case, sc=None)
+        # drop the decorations one by one
+        for k in ('twin', 'ghosts', 'clobber', 'mut_info'):
+            if case.get(k):
+                yield {kk: v for kk, v in case.items() if kk != k}
+        for k in list(case.get('rep') or {}):
+            if k == 'nch' and (case['rep'].get('dtype') == 'u2'):
+                continue
+            yield dict(case, rep={kk: v for kk, v in case['rep'].items() if kk != k})
 
     def describe(self, case):
         return (f"fs={case['fs']} N={case['N']} {case['nd']} parts={case['parts']} size={case['epoch_size']} "
